@@ -1,5 +1,6 @@
 import Cqos.DriverPure
 import Cqos.DriverSched
+import Cqos.DriverJoin
 /-
   `cqosmodel`: reads one request per line on stdin, prints one reply line per request.
   Unknown or malformed requests are answered `bad-op` (never defaulted).  A `cfg` line
@@ -12,13 +13,18 @@ def splitLine (line : String) : List String :=
 
 structure Sessions where
   sched : Option DriverSched.Session := none
+  join : Option DriverJoin.Session := none
 
 def handle (ss : Sessions) (toks : List String) : String × Sessions :=
   match toks with
   | "cfg" :: _ =>
     match DriverSched.startSession toks with
-    | some (r, s) => (r, { ss with sched := s })
+    | some (r, s) => (r, { ss with sched := s, join := none })
     | none => ("bad-op", { ss with sched := none })
+  | "jcfg" :: _ =>
+    match DriverJoin.start toks with
+    | some (r, s) => (r, { ss with join := s, sched := none })
+    | none => ("bad-op", { ss with join := none })
   | _ =>
     match DriverPure.op toks with
     | some r => (r, ss)
@@ -28,7 +34,13 @@ def handle (ss : Sessions) (toks : List String) : String × Sessions :=
         (match DriverSched.op s toks with
          | some (r, s') => (r, { ss with sched := some s' })
          | none => ("bad-op", ss))
-      | none => ("bad-op", ss)
+      | none =>
+        match ss.join with
+        | some j =>
+          (match DriverJoin.op j toks with
+           | some (r, j') => (r, { ss with join := some j' })
+           | none => ("bad-op", ss))
+        | none => ("bad-op", ss)
 
 partial def loop (h : IO.FS.Stream) (out : IO.FS.Stream) (ss : Sessions) : IO Unit := do
   let line ← h.getLine
